@@ -282,6 +282,9 @@ class Resolver:
         if k in self._in_progress:
             return ANY
         r = self.ann_type(func.node.returns, func, ctx)
+        if func.name == '_create_from_bitstype' and func.cls in FAMILY:
+            # `return auto` under isinstance(auto, cls): the result may be of any subclass of cls
+            r = self.family(ctx or func.cls)
         if func.node.returns is None or not r:
             self._in_progress.add(k)
             try:
